@@ -22,7 +22,7 @@ def standard_items(tier, rng, scratch, out, budget, extra_generators=()):
         nid[0] += 1
         items.append([nid[0], text, ver, origin])
 
-    share = max(1000, budget // 8)
+    share = max(1000, budget // 9)
     starts = ['f"', "f'", 'f"""', "rf'"]
     for i, s in enumerate(_take(strs, share, rng)):
         add(s, VERSIONS[i % 9], 'strings')
@@ -38,12 +38,18 @@ def standard_items(tier, rng, scratch, out, budget, extra_generators=()):
         add(inputs.vary(s, rng), rng.choice(VERSIONS), 'class-walk')
     for s in inputs.pool_strings(share, rng, maxlen=20):
         add(s, rng.choice(VERSIONS), 'pool')
+    lits, res5 = inputs.string_literals(scratch.sub('lits'), 3)
+    out.add('states', res5.distinct)
+    out.add('transitions', res5.generated)
+    out.cov(string_literal_shapes=len(lits))
+    for i, t in enumerate(_take(lits, share, rng)):
+        add(t, VERSIONS[i % 9], 'string-literals')
     # grammar sentences: one shortest sentence through every arc of every DFA (all versions), two spellings
     from . import parserb, pgen_export
     arcs = []
     for v in VERSIONS:
         rec, _ = pgen_export.grammar_record(pgen_export.grammar_text(v))
-        sents, n_arcs = parserb.arc_cover(rec)
+        sents, n_arcs = parserb.arc_cover(rec, two_level=True)
         for sent in sents:
             t1 = parserb.render(sent)
             if t1 is not None:
@@ -52,7 +58,7 @@ def standard_items(tier, rng, scratch, out, budget, extra_generators=()):
                 if t2 and t2 != t1:
                     arcs.append((t2, v))
     out.cov(grammar_arc_sentences=len(arcs))
-    for t, v in _take(arcs, share, rng):
+    for t, v in _take(arcs, max(share, 8000), rng):      # normally all of them
         add(t, v, 'grammar-arcs')
     for gen in extra_generators:
         for text, ver, origin in gen(share):
